@@ -1,5 +1,3 @@
-use std::cmp::Ordering;
-
 use pyo3::{
     prelude::*,
     types::{PyDate, PyDateAccess, PyDateTime, PyDelta, PyDeltaAccess, PyString, PyTimeAccess},
@@ -333,29 +331,19 @@ pub fn precise_diff<'py>(
         let days_in_month =
             DAYS_PER_MONTHS[usize::from(helpers::is_leap(dtinfo2.year))][dtinfo2.month as usize];
 
-        match day_diff.cmp(&(days_in_month - days_in_last_month)) {
-            Ordering::Less => {
-                // We don't have a full month, we calculate days
-                if days_in_last_month < dtinfo1.day {
-                    day_diff += dtinfo1.day;
-                } else {
-                    day_diff += days_in_last_month;
-                }
-            }
-            Ordering::Equal => {
-                // We have exactly a full month
-                // We remove the days difference
-                // and add one to the months difference
-                day_diff = 0;
-                month_diff += 1;
-            }
-            Ordering::Greater => {
-                // We have a full month
-                day_diff += days_in_last_month;
-            }
-        }
+        // The start day as it falls in the month of the end date
+        // (adding months clamps the day to the length of the target month)
+        let clamped_day = dtinfo1.day.min(days_in_month);
 
-        month_diff -= 1;
+        if day_diff + dtinfo1.day - clamped_day >= 0 {
+            // Once the start day is clamped we have full months
+            day_diff += dtinfo1.day - clamped_day;
+        } else {
+            // We don't have a full month, we count the days
+            // from the start day in the previous month
+            day_diff += dtinfo1.day - dtinfo1.day.min(days_in_last_month) + days_in_last_month;
+            month_diff -= 1;
+        }
     }
 
     if month_diff < 0 {
